@@ -25,6 +25,7 @@ class HalProxy:
         self.alarms = {}       # handle -> last programmed alarm (us)
         self.calls = []        # (name, handle, arg)
         self.record = False
+        self.last_init = None  # handle returned by the latest initializeNotifier()
 
     def __getattr__(self, name):
         return getattr(self._real, name)
